@@ -656,10 +656,10 @@ func main() {
 	plan := []struct {
 		class string
 		n     int
-	}{{"guarded-small", 5}, {"rewrite", 7}, {"mixed-small", 7}, {"guarded-large", 4}, {"alias", 6}, {"mixed-large", 7}}
+	}{{"guarded-small", 14}, {"rewrite", 16}, {"mixed-small", 18}, {"guarded-large", 10}, {"alias", 16}, {"mixed-large", 16}}
 	if opts.Thorough() {
 		for i := range plan {
-			plan[i].n *= 25
+			plan[i].n *= 10
 		}
 	}
 	serial := 0
